@@ -24,6 +24,8 @@ STRUCTS = [
     ["# title 2024-02-02", "", EXISTING, "A", "", "B", ""],
     ["# title", "", "#" * 32 + " H1 2024-03-03", "A", "", "=" * 24 + " H2", "B", EXISTING, ""],
     ["# title", "", "A", "# in-block comment", "B", ""],
+    # characters str.splitlines() breaks at but the page format does not (FF, LS) in a note ABOVE the ones that get ZIDs
+    ["# title", "", "- 240101#08 al\x0cpha\u2028one", "A", "B", ""],
 ]
 NEXT_IDS = [None, {"240103": "0z"}, {"240202": "zz", "240303": "9Z"}]
 TODAY = dt.date(2024, 5, 10)
